@@ -170,6 +170,67 @@ impl Session {
         })
     }
 
+    /// Start the program as a plain child of this worker, let it run for `delay_ms`, then attach
+    /// the debugger to it (DebuggerBuilder::build_attached).
+    pub fn attach(exe: &str, args: &[String], delay_ms: u64) -> Result<Session, String> {
+        let elf = reftrace::elf_info(exe)?;
+        let data = std::fs::read(exe).map_err(|e| e.to_string())?;
+        let file_text = elf.text.iter().map(|(addr, off, size)| (*addr, data[*off as usize..(*off + *size) as usize].to_vec())).collect();
+        let (reader, writer) = os_pipe::pipe().map_err(|e| e.to_string())?;
+        let out = Arc::new(Mutex::new(Vec::new()));
+        let o2 = out.clone();
+        let reader_thread = std::thread::spawn(move || {
+            let mut reader = reader;
+            let mut buf = [0u8; 4096];
+            loop {
+                match reader.read(&mut buf) {
+                    Ok(0) | Err(_) => break,
+                    Ok(n) => o2.lock().unwrap().extend_from_slice(&buf[..n]),
+                }
+            }
+        });
+        rust::Environment::init(None);
+        use std::os::unix::process::CommandExt;
+        let mut command = std::process::Command::new(exe);
+        // same address-space layout as under the debugger (which switches randomization off)
+        unsafe {
+            command.pre_exec(|| {
+                libc::personality(0x0040000);
+                Ok(())
+            });
+        }
+        let child = command
+            .args(args)
+            .stdin(std::process::Stdio::null())
+            .stdout(writer.try_clone().map_err(|e| e.to_string())?)
+            .stderr(writer.try_clone().map_err(|e| e.to_string())?)
+            .spawn()
+            .map_err(|e| format!("spawn {exe}: {e}"))?;
+        let pid = child.id() as i32;
+        std::mem::forget(child); // reaped by this worker's own waitpid calls
+        std::thread::sleep(std::time::Duration::from_millis(delay_ms));
+        let events = Events::default();
+        let dbg = DebuggerBuilder::new()
+            .with_hooks(Hooks { ev: events.clone() })
+            .build_attached(Pid::from_raw(pid), writer.try_clone().map_err(|e| e.to_string())?, writer)
+            .map_err(|e| format!("attach: {e:?}"))?;
+        Ok(Session {
+            dbg: Some(dbg),
+            events,
+            exe: exe.to_string(),
+            elf,
+            file_text,
+            out,
+            main_entry_sp: 0,
+            exited: None,
+            detached_pid: None,
+            tags: Default::default(),
+            wtags: Default::default(),
+            post: None,
+            reader: Some(reader_thread),
+        })
+    }
+
     pub fn d(&mut self) -> &mut Debugger {
         self.dbg.as_mut().expect("debugger dropped")
     }
@@ -408,6 +469,70 @@ impl Session {
                 out.insert("stdout".into(), json!(String::from_utf8_lossy(&self.out.lock().unwrap()).to_string()));
                 Value::Object(out)
             }
+            "post_detach_check_mt" => {
+                // after detach from a (multi-threaded, attached) process: no task may still be
+                // traced or stopped, the text is the file's, no debug register is enabled in any
+                // task; then the process must run to its end
+                let Some(pid) = self.detached_pid else {
+                    return json!({"ok":false,"err":"NotDetached"});
+                };
+                std::thread::sleep(std::time::Duration::from_millis(u("settle_ms").max(5)));
+                let mut tasks = vec![];
+                let mut early: Option<i32> = None;
+                if let Ok(rd) = std::fs::read_dir(format!("/proc/{pid}/task")) {
+                    for t in rd.flatten() {
+                        let tid: i32 = t.file_name().to_string_lossy().parse().unwrap_or(0);
+                        let status = std::fs::read_to_string(t.path().join("status")).unwrap_or_default();
+                        let field = |k: &str| status.lines().find(|l| l.starts_with(k)).map(|l| l[k.len()..].trim().to_string()).unwrap_or_default();
+                        let tracer: i64 = field("TracerPid:").parse().unwrap_or(-1);
+                        let state = field("State:").chars().next().unwrap_or('?').to_string();
+                        // independent look at the debug registers
+                        let tp = Pid::from_raw(tid);
+                        let mut dr7 = None;
+                        if tracer == 0 && nix::sys::ptrace::seize(tp, nix::sys::ptrace::Options::empty()).is_ok() {
+                            let _ = nix::sys::ptrace::interrupt(tp);
+                            match nix::sys::wait::waitpid(tp, Some(nix::sys::wait::WaitPidFlag::__WALL)) {
+                                Ok(nix::sys::wait::WaitStatus::PtraceEvent(..)) | Ok(nix::sys::wait::WaitStatus::Stopped(..)) => {
+                                    let base = std::mem::offset_of!(libc::user, u_debugreg);
+                                    dr7 = nix::sys::ptrace::read_user(tp, (base + 7 * 8) as nix::sys::ptrace::AddressType).map(|v| v as u64).ok();
+                                    let _ = nix::sys::ptrace::detach(tp, None);
+                                }
+                                // the process finished under our eyes: keep its status
+                                Ok(nix::sys::wait::WaitStatus::Exited(p, c)) if p.as_raw() == pid => early = Some(c),
+                                Ok(nix::sys::wait::WaitStatus::Signaled(p, sg, _)) if p.as_raw() == pid => early = Some(-(sg as i32)),
+                                _ => {}
+                            }
+                        }
+                        tasks.push(json!({"tid": tid, "tracer_pid": tracer, "state": state, "dr7": dr7}));
+                    }
+                }
+                let text_diff = self.text_diff(pid);
+                // run to completion (the process is a child of this worker)
+                let t0 = std::time::Instant::now();
+                let mut code: Option<i32> = early;
+                while code.is_none() && t0.elapsed() < std::time::Duration::from_secs(8) {
+                    match nix::sys::wait::waitpid(Pid::from_raw(pid), Some(nix::sys::wait::WaitPidFlag::WNOHANG)) {
+                        Ok(nix::sys::wait::WaitStatus::Exited(_, c)) => code = Some(c),
+                        Ok(nix::sys::wait::WaitStatus::Signaled(_, sg, _)) => code = Some(-(sg as i32)),
+                        Ok(_) => std::thread::sleep(std::time::Duration::from_millis(2)),
+                        Err(_) => break,
+                    }
+                }
+                if code.is_none() {
+                    unsafe { libc::kill(pid, 9) };
+                }
+                let t1 = std::time::Instant::now();
+                let mut last_len = usize::MAX;
+                while t1.elapsed() < std::time::Duration::from_millis(800) {
+                    std::thread::sleep(std::time::Duration::from_millis(20));
+                    let n = self.out.lock().unwrap().len();
+                    if n == last_len && n > 0 {
+                        break;
+                    }
+                    last_len = n;
+                }
+                json!({"ok": true, "tasks": tasks, "text_diff": text_diff, "exit_code": code, "stdout": String::from_utf8_lossy(&self.out.lock().unwrap()).to_string()})
+            }
             "c04_sweep" => {
                 let fns: Vec<String> = serde_json::from_value(cmd["fns"].clone()).unwrap_or_default();
                 let mut v = crate::c04w::sweep(self, &s("file"), &fns);
@@ -445,6 +570,10 @@ impl Session {
             "drop" => {
                 let pid = self.pid();
                 self.dbg = None;
+                if cmd["external"].as_bool().unwrap_or(false) {
+                    // quitting after an attach must leave the process running: inspected like a detach
+                    self.detached_pid = Some(pid);
+                }
                 std::thread::sleep(std::time::Duration::from_millis(20));
                 let stat = std::fs::read_to_string(format!("/proc/{pid}/stat")).unwrap_or_default();
                 let state = stat.rsplit(") ").next().and_then(|r| r.chars().next()).map(|c| c.to_string());
@@ -641,7 +770,8 @@ pub fn worker() {
     let args: Vec<String> = serde_json::from_value(job["args"].clone()).unwrap_or_default();
     let want_bt = job["bt"].as_bool().unwrap_or(false);
     let t_launch = std::time::Instant::now();
-    let mut s = match Session::launch(&exe, &args, job["main_entry_sp"].as_u64().unwrap_or(0)) {
+    let started = if job["attach"].as_bool().unwrap_or(false) { Session::attach(&exe, &args, job["attach_delay_ms"].as_u64().unwrap_or(20)) } else { Session::launch(&exe, &args, job["main_entry_sp"].as_u64().unwrap_or(0)) };
+    let mut s = match started {
         Ok(s) => s,
         Err(e) => {
             emit_result(&json!({"launch_error": e}));
